@@ -147,6 +147,23 @@ struct Outcome {
     first: Vec<u8>,
 }
 
+/// A sink that takes at most `limit` bytes per `write` call (as a pipe or a tty may).
+struct ShortWriter {
+    limit: usize,
+    data: Vec<u8>,
+}
+
+impl std::io::Write for ShortWriter {
+    fn write(&mut self, buf: &[u8]) -> std::io::Result<usize> {
+        let n = buf.len().min(self.limit);
+        self.data.extend_from_slice(&buf[..n]);
+        Ok(n)
+    }
+    fn flush(&mut self) -> std::io::Result<()> {
+        Ok(())
+    }
+}
+
 /// Draw `case` on `handler` twice and evaluate the statement.
 fn check(case: &Case, handler: &mut SixelImageHandler) -> Outcome {
     let mut o = Outcome::default();
@@ -169,6 +186,41 @@ fn check(case: &Case, handler: &mut SixelImageHandler) -> Outcome {
             if !a || !b {
                 add("draw:error-result", "draw returned Err while writing to a Vec".into());
                 return o;
+            }
+        }
+    }
+    // the same image once more into a sink that accepts 7 bytes per call, and on a fresh handler into one
+    // that accepts 1 byte per call: what arrives must not depend on how much the sink takes at a time
+    for (limit, fresh) in [(7usize, false), (1, true)] {
+        let mut sink = ShortWriter { limit, data: vec![] };
+        let ok = if fresh {
+            let mut h2 = SixelImageHandler::new(case.bg.map(|b| RGBA::new(b[0], b[1], b[2], 255)));
+            catch(|| h2.draw(&mut sink, &img, Position::new(0, 0)).is_ok())
+        } else {
+            catch(|| handler.draw(&mut sink, &img, Position::new(0, 0)).is_ok())
+        };
+        match ok {
+            Err(p) => add(&p.key(), format!("draw into a short-writing sink panicked: {} ({}:{})", p.message, p.file, p.line)),
+            Ok(false) => add("draw:error-result", "draw returned Err while writing to a sink that accepts a few bytes per call".into()),
+            Ok(true) => {
+                // a fresh handler may order the colours of a band differently (hash-map order): compare pictures
+                let same = if fresh {
+                    match (decode(&sink.data), decode(&first)) {
+                        (Ok(a), Ok(b)) => a.width == b.width && a.height == b.height && a.pix == b.pix && sink.data.len() == first.len(),
+                        _ => false,
+                    }
+                } else {
+                    sink.data == first
+                };
+                if !same {
+                    add(
+                        "redraw:depends-on-sink",
+                        format!(
+                            "drawing into a sink that accepts {limit} byte(s) per write call ({} handler) delivered {} bytes, into a Vec {} bytes",
+                            if fresh { "fresh" } else { "same" }, sink.data.len(), first.len()
+                        ),
+                    );
+                }
             }
         }
     }
@@ -416,6 +468,15 @@ fn fixed_cases(tier: Tier) -> Vec<Case> {
                 3,
                 (0..36).map(|i| [(i * 7) as u8, 200, (255 - i * 5) as u8, alphas[(i + pat / 3 * (i / 3)) % 3 * (pat % 3 + 1) % 3]]).collect(),
             );
+            case.bg = bg;
+            v.push(case);
+        }
+    }
+    // runs of fully transparent BLACK pixels (the all-zero pixel value) at the start, in the middle and at the end
+    for bg in [None, Some([255u8, 255, 255]), Some([30u8, 60, 200])] {
+        for code in 0..64u32 {
+            let px: Vec<Px> = (0..12).map(|i| if code >> (i % 6) & 1 == 1 { [0, 0, 0, 0] } else { [200, 100 + 10 * (i as u8 / 6), 50, 255] }).collect();
+            let mut case = Case::new("transparent-black", 6, 2, px);
             case.bg = bg;
             v.push(case);
         }
